@@ -413,6 +413,16 @@ def run_parse_rules(res, ast):
         pan = [m_["method"] for m_ in walk_t(body, "MethodCall") if m_["method"] in ("unwrap", "expect", "unwrap_unchecked")] + \
             [m_["mac"]["name"] for m_ in walk_t(body, "MacroExpr") if m_["mac"]["name"] in ("panic", "unreachable", "unimplemented", "todo", "assert", "assert_eq")]
         res.check(not pan, "NO-PANIC", f"{INPLACE}|execute_in|panicking", where(INPLACE, fn, "execute_in"), f"execute_in can panic through {pan}")
+        # helpers of the interpreter that stayed separate functions are held to the same rule
+        for fr in ast.find_fns(INPLACE):
+            if is_test_item(fr) or fr["node"] is fn or not fr["node"].get("body") or fr["name"] in ("create", "execute", "execute_limited", "execute_unsafe"):
+                continue
+            if list(walk_t(fr["node"]["body"], "Index")):
+                index_guards(ast, INPLACE, fr["node"], res, "NO-PANIC", f"{INPLACE}|{fr['name']}")
+            pan2 = [m_["method"] for m_ in walk_t(fr["node"]["body"], "MethodCall") if m_["method"] in ("unwrap", "expect", "unwrap_unchecked")] + \
+                [m_["mac"]["name"] for m_ in walk_t(fr["node"]["body"], "MacroExpr") if m_["mac"]["name"] in ("panic", "unreachable", "unimplemented", "todo", "assert", "assert_eq")]
+            if pan2:
+                res.bad("NO-PANIC", f"{INPLACE}|{fr['name']}|panicking", where(INPLACE, fr["node"], fr["name"]), f"{fr['name']} can panic through {pan2}")
         rec = [c for c in walk_t(body, "MethodCall") if c["method"] == "execute_in"]
         res.check(not rec, "STACK-PAIR", f"{INPLACE}|execute_in|nonrec", where(INPLACE, fn, "execute_in"), "execute_in must not recurse")
     except Missing as mm:
